@@ -13,13 +13,20 @@ watcher channels).
       if visited[identity] == 0 {                        -- Go map: absent key reads 0
         visited[identity] = content.BlockN               -- so BlockN == 0 is never remembered
         out <- content.log
-        go func() { <-time.After(1500 s); delete(visited, identity) }()
+        go func() { <-time.After(firstEventWindow); mu.Lock(); delete(visited, identity); mu.Unlock() }()
       } }
 
-so it is a fold over the sequence of values it receives.  (`‖ TxHash ‖ Index` is the F9
-repair; `legacy = true` below is the identity of the code before it.)  The timer goroutine
-is modelled by an explicit `expire` item in the sequence: "within the de-duplication
-window" = no `expire` of an identity before its last observation.
+(the test-and-set of `visited` holds the same mutex `mu`; `firstEventWindow` = 1500 s, regenerated
+fact `Gen.EventTable.dedupWindowSeconds`) so it is a fold over the sequence of values it receives
+and of timer firings.  (`‖ TxHash ‖ Index` is the F9 repair; `legacy = true` below is the identity of
+the code before it.)  A timer goroutine is modelled by an explicit `expire` item in the sequence:
+"within the de-duplication window" = no `expire` of an identity before its last observation.
+Since /repo commit "fix: firstEvent …" (round 5, review E #1) every access to the map is a critical
+section of one mutex, so the accesses of the loop and of all timer goroutines ARE totally ordered and
+the sequence exists; before it the timers deleted without any lock and the Go runtime aborted the
+process (`fatal error: concurrent map writes`) when a few timers fired together — outside anything a
+fold can say.  The timer goroutines are sources of their own (`timerStreams`), interleaved with the
+endpoint streams.
 
 `merge` forwards every value of every input channel, each input in order, in an arbitrary
 interleaving, and closes its output when all inputs are closed: `Interleaving`.
@@ -97,6 +104,9 @@ inductive Interleaving {α : Type} : List (List α) → List α → Prop where
   | next {ss : List (List α)} {x : α} {s : List α} {m : List α} (i : Nat) :
       ss[i]? = some (x :: s) → Interleaving (ss.set i s) m → Interleaving ss (x :: m)
 
+/-- the timer goroutines `firstEvent` has started, as concurrent sources of their own: each fires once -/
+def timerStreams (ts : List (Ident H)) : List (List (Item H P)) := ts.map (fun i => [Item.expire i])
+
 /-! ### endpoint failure, error report, disconnect
 
 When a websocket endpoint fails, each of its watchers reports an `*OnchainError` whose `Idx`
@@ -150,6 +160,45 @@ def parseLogItem (s : String) : Option DItem :=
 
 def parseItems (s : String) : Option (List DItem) :=
   if s == "-" then some [] else (s.splitOn ",").mapM parseLogItem
+
+/-! `tw` lines (go/props/c18/window.go): the window is shortened through a hook and the timers really fire.
+`w` = every timer started so far has fired (one `expire` per identity observed so far; the order among them
+is immaterial); `B<n>@<k>` = a burst of n distinct logs; `T<n>@<k>` = the wait of `w` with n new distinct
+logs arriving meanwhile. -/
+
+def burstItems (n k : Nat) : List DItem :=
+  (List.range n).map (fun j => .log { data := [0xb0], blockN := 9, tx := natBE 32 k, index := j, removed := false,
+                                      payload := toString k ++ "." ++ toString j })
+
+def identOfItem : DItem → Option DIdent
+  | .log l => some (ident (fun b => b) false l)
+  | _ => none
+
+def expireAll (seen : List DItem) : List DItem := (seen.filterMap identOfItem).map .expire
+
+def parseBurst (s : String) : Option (Nat × Nat) :=
+  match s.splitOn "@" with
+  | [n, k] => do pure (← n.toNat?, ← k.toNat?)
+  | _ => none
+
+def expandTw : List String → List DItem → Option (List DItem)
+  | [], acc => some acc
+  | t :: ts, acc =>
+    if t == "w" then expandTw ts (acc ++ expireAll acc)
+    else if t.startsWith "B" && t.contains '@' then
+      match parseBurst ((t.drop 1).toString) with
+      | some (n, k) => expandTw ts (acc ++ burstItems n k)
+      | none => none
+    else if t.startsWith "T" && t.contains '@' then
+      match parseBurst ((t.drop 1).toString) with
+      | some (n, k) => expandTw ts (acc ++ expireAll acc ++ burstItems n k)
+      | none => none
+    else match parseLogItem t with
+      | some x => expandTw ts (acc ++ [x])
+      | none => none
+
+def parseTw (s : String) : Option (List DItem) :=
+  if s == "-" then some [] else expandTw (s.splitOn ",") []
 
 def showOut (l : List String) : String :=
   "out " ++ (if l.isEmpty then "-" else String.intercalate "," l)
